@@ -8,7 +8,7 @@ package main
 // trigger class there is a probe, a semantics-preserving edit of the Go source that removes exactly
 // that trigger (nothing else), and the comparator is run again:
 //
-//	command-call-blank        delete the blanks/comments between the head operand (identifier or
+//	command-call-blank        delete the blanks/comments between the head operand (identifier, `map` keyword or
 //	                          selector chain) of an expression/assignment/send/inc-dec statement and
 //	                          the token after it            (`f (x)`, `ch <-v`, `m [k] = v`)
 //	semicolon-after-ellipsis  replace a line break that directly follows `...` by a blank
@@ -170,6 +170,8 @@ func headOperand(e goast.Expr) goast.Expr {
 			e = v.Type
 		case *goast.Ident, *goast.SelectorExpr:
 			return v
+		case *goast.MapType:
+			return v // `map [K]V{..}[k] = v`: XGo also takes the keyword `map` + blank as a command head
 		default:
 			return nil
 		}
@@ -207,6 +209,9 @@ func glueStatementHeads(src []byte) []byte {
 			return true
 		}
 		from := tf.Offset(op.End())
+		if mt, ok := op.(*goast.MapType); ok {
+			from = tf.Offset(mt.Map) + len("map")
+		}
 		to := from
 		for to < len(src) {
 			switch {
